@@ -270,11 +270,14 @@ def run(ctx):
                 return [Out("normal", s, AV("unk", truth=True, none=False)), Out("raise", st.copy(), exc("urllib3.exceptions.MaxRetryError"))]
             if t in ("self._get_conn",):
                 return [Out("normal", st, AV("obj", "fresh", truth=True, none=False, typ=f"{CN}.HTTPConnection"))]
-            if t in ("self._put_conn", "conn.close", "self._prepare_proxy", "self._get_timeout", "set_file_position", "parse_url",
-                     "connection_requires_http_tunnel", "retries.sleep", "to_str", "_encode_target", "self.is_same_host", "headers.copy",
-                     "headers.update", "Retry.from_int", "sys.exc_info"):
-                return [Out("normal", st, UNK)]
-            return super().call(it, st, node, recv, pos, kw)
+            q = it.resolve_callee(node, recv)
+            if q and it.m.is_exception_class(q):
+                return [Out("normal", st, AV("exc", it.m.norm(q), truth=True, none=False))]
+            if t == "_wrap_proxy_error":
+                return [Out("normal", st, AV("exc", "urllib3.exceptions.ProxyError", truth=True, none=False))]
+            if t == "self.urlopen":
+                return super().call(it, st, node, recv, pos, kw)
+            return [Out("normal", st, UNK)]
 
     qf = queue_field(m)
     for cls_q in (f"{CP}.HTTPConnectionPool",):
@@ -282,7 +285,7 @@ def run(ctx):
         for root, reason in ROOTS.items():
             rule = TransRule(qf, m.norm(root))
             it = Interp(m, rule, cls_q, fi.module, frozenset(), budget=Budget(400000))
-            it.relevant = {"e", "new_e", "conn", "clean_exit", "release_this_conn", "err"}
+            it.relevant = None  # track everything: local names are not part of the rule
             st = State()
             for a in fi.node.args.args[1:] + fi.node.args.kwonlyargs:
                 st.env[it.var(a.arg)] = AV("unk", sym=f"param:{a.arg}")
